@@ -349,5 +349,8 @@ class Registry(asset.Registry, alias='posix'):
                 raise asset.Level.Invalid(f'State {sid} not staged')
             target = self._path.state(sid, project, release, generation)
             source.rename(target)
-        with path.open('wb') as tagfile:
+        # the tag file is what makes the generation listed: write it aside and rename it into place atomically
+        staged = path.with_name(f'{path.name}.{uuid.uuid4()}.tmp')
+        with staged.open('wb') as tagfile:
             tagfile.write(tag.dumps())
+        staged.replace(path)
